@@ -1,6 +1,7 @@
 import MxModel.Struct.Namespace
 import MxModel.Generated.Tables
 import MxModel.Proofs.StructMechLive
+import MxModel.Proofs.StructMechNamespace
 /-!
 # C12 – the visible namespace equals the containers, with the documented precedence
 
@@ -216,6 +217,130 @@ example : ((St.run ["for"] {} clashOps).step ["for"] (.newSpace [] "S" [] [("for
 example : ((St.run [] {} clashOps).step [] (.newSpace [] "S" [] [("_a", 1)])).2 = false := by decide
 example : (St.run [] {} (clashOps ++ [.newSpace [] "S" [["B"]] [("x", 7), ("y", 8)]])).mem .refs ["S"] "x"
     = some { derived := false, payload := 7 } := by decide
+
+/-! ## The visible namespace of every reachable state
+
+`SM.St.namespaceIn` (Struct/MechNamespace.lean) builds, for a space `q` of a state of the mechanism
+model, the chain of maps `BaseSpaceImpl.__init__` / `UserSpaceImpl._init_refs` build: the cells of `q`,
+its references (own ones - defined or derived -, the special names `_self`, `_space`, `_model`, the
+model-level ones), its child spaces, flattened in the order of the two regenerated tables.  Formula
+globals, attribute access and `dir()` of the implementation all read that one chain (`namespace`), so
+the model has one namespace per space; that the three views of the implementation agree with each
+other is decided by the check's oracle, not here.  Parameters (the `allargs` map) exist only in
+dynamic spaces (`Kernels/ItemSpace.lean`, `C07.chain_order`). -/
+
+/-- the namespace of the space `q`, in the order of the tables regenerated from space.py -/
+def namespaceOf (st : St) (q : SM.Path) : List (String × NMap Denot) :=
+  st.namespaceIn namespaceOrder userRefsOrder q
+
+/-- with the order the source has now: cells, own references, special names, model-level references,
+child spaces -/
+theorem namespaceOf_eq (st : St) (q : SM.Path) : namespaceOf st q = st.codeChain q := by
+  unfold namespaceOf namespaceOrder userRefsOrder
+  exact namespaceIn_code st q
+
+/-- **The visible names are exactly the cells, the references and the child spaces**: after every
+sequence of operations, a name resolves in the namespace of `q` iff it is a cells of `q`, a reference of
+`q` (defined there or derived), one of the three special names, a model-level reference, or a child
+space of `q` - nothing else is visible, and nothing of these is invisible. -/
+theorem visible_names_are_exactly_the_members (kw : List String) (ops : List Op) (q : SM.Path) (n : String) :
+    (chainFind (namespaceOf (St.run kw {} ops) q) n).isSome = true ↔
+      (((St.run kw {} ops).mem .cells q n).isSome = true ∨ ((St.run kw {} ops).mem .refs q n).isSome = true ∨
+        n ∈ sysNames ∨ n ∈ (St.run kw {} ops).globals ∨ n ∈ (St.run kw {} ops).childNames q) := by
+  rw [namespaceOf_eq]
+  exact chain_visible_iff _ q n
+
+/-- **What a visible name denotes** (the precedence the chain really has): a cells of the space; else a
+reference of the space; else a special name; else a model-level reference; else a child space.  So a
+space-level cells or reference takes precedence over a model-level reference of the same name, and a
+model-level reference takes precedence over a CHILD SPACE of the same name. -/
+theorem name_resolution (kw : List String) (ops : List Op) (q : SM.Path) (n : String) :
+    chainFind (namespaceOf (St.run kw {} ops) q) n =
+      match (St.run kw {} ops).mem .cells q n with
+      | some m => some ("cells", .cells m)
+      | none =>
+        match (St.run kw {} ops).mem .refs q n with
+        | some m => some ("own_refs", .ownRef m)
+        | none =>
+          if n ∈ sysNames then some ("sys_refs", .sys)
+          else if n ∈ (St.run kw {} ops).globals then some ("global_refs", .global)
+          else if n ∈ (St.run kw {} ops).childNames q then some ("spaces", .child)
+          else none := by
+  rw [namespaceOf_eq]
+  exact chain_resolution _ q n
+
+/-- **Each visible name has one meaning, up to the two documented shadowings.**  After every sequence of
+operations, when the lookup of `n` in the namespace of `q` stops at the map `mapName`, every OTHER map of
+the chain that also holds `n` is
+* the model-level references, and the lookup stopped at a cells or an own reference of the space (the
+  space-level name takes precedence, as the property says), or
+* the child spaces, and the lookup stopped at a model-level reference (the child space LOSES - the
+  property's "space-level ones taking precedence" does not hold for child spaces, in the code as in the
+  model: `global_may_shadow_child`; impossible at top level, `reachable_containers_disjoint`).
+In particular the cells, the own references, the special names and the child spaces of a space never
+share a name, so among them the first match is the only match. -/
+theorem each_visible_name_has_one_meaning (kw : List String) (ops : List Op) (q : SM.Path) (n : String)
+    (mapName : String) (d : Denot)
+    (hf : chainFind (namespaceOf (St.run kw {} ops) q) n = some (mapName, d)) :
+    ∀ e ∈ namespaceOf (St.run kw {} ops) q, e.1 ≠ mapName → (e.2.find n).isSome = true →
+      (e.1 = "global_refs" ∧ (mapName = "cells" ∨ mapName = "own_refs")) ∨
+      (e.1 = "spaces" ∧ mapName = "global_refs") := by
+  rw [namespaceOf_eq] at hf ⊢
+  exact chain_other_matches (run_invN kw ops) q n mapName d hf
+
+/-- the space's own containers and the special names are pairwise disjoint in every reachable state, and
+no model-level reference bears a special name -/
+theorem space_level_names_disjoint (kw : List String) (ops : List Op) (q : SM.Path) (n : String) :
+    ¬ (((St.run kw {} ops).mem .cells q n).isSome = true ∧ ((St.run kw {} ops).mem .refs q n).isSome = true) ∧
+    ¬ (((St.run kw {} ops).mem .cells q n).isSome = true ∧ n ∈ sysNames) ∧
+    ¬ (((St.run kw {} ops).mem .refs q n).isSome = true ∧ n ∈ sysNames) ∧
+    ¬ (((St.run kw {} ops).mem .cells q n).isSome = true ∧ n ∈ (St.run kw {} ops).childNames q) ∧
+    ¬ (((St.run kw {} ops).mem .refs q n).isSome = true ∧ n ∈ (St.run kw {} ops).childNames q) ∧
+    ¬ (n ∈ sysNames ∧ n ∈ (St.run kw {} ops).childNames q) ∧
+    ¬ (n ∈ sysNames ∧ n ∈ (St.run kw {} ops).globals) :=
+  space_level_disjoint (run_invN kw ops) q n
+
+/-- **A refused name is never visible**: after every sequence of operations every name visible in the
+namespace of any space is a valid name (an identifier that is no keyword and does not start with an
+underscore) or one of the three special names - whatever names the operations asked for. -/
+theorem refused_names_never_visible (kw : List String) (ops : List Op) (q : SM.Path) (n : String)
+    (hbad : Names.isValidName kw n = false) (hs : n ∉ sysNames) :
+    chainFind (namespaceOf (St.run kw {} ops) q) n = none := by
+  rw [namespaceOf_eq]
+  cases hf : chainFind ((St.run kw {} ops).codeChain q) n with
+  | none => rfl
+  | some r =>
+    rcases visible_valid (run_invN kw ops) q n (by rw [hf]; rfl) with h | h
+    · rw [hbad] at h; cases h
+    · exact absurd h hs
+
+/-- the name test the mechanism's own checks use (`St.kindOf`: `_can_add`, `new_ref`, `set_attr`) is the
+lookup in this chain - for every name but the three special ones, which are no valid names -/
+theorem mechanism_checks_read_the_namespace (kw : List String) (ops : List Op) (q : SM.Path) (n : String)
+    (hs : n ∉ sysNames) :
+    (St.run kw {} ops).kindOf q n = (chainFind (namespaceOf (St.run kw {} ops) q) n).map (fun r => r.2.kind) := by
+  rw [namespaceOf_eq]
+  exact kindOf_eq_chain _ q n hs
+
+/-! Non-vacuity: the state of `clashOps` plus a cells and a derived reference; the two shadowings. -/
+def nsOps : List Op := clashOps ++ [.newCells ["A"] "z" "z" 3, .setRef ["A"] "w" 5, .setGlobal "z", .setGlobal "u"]
+
+example : (namespaceOf (St.run [] {} nsOps) ["B"]).map (fun e => (e.1, e.2.map (·.1))) =
+    [("cells", ["z"]), ("own_refs", ["x", "w"]), ("sys_refs", ["_self", "_space", "_model"]),
+     ("global_refs", ["y", "z", "u"]), ("spaces", [])] := by decide
+-- `z`: a (derived) cells of `B` and a model-level reference: the cells wins
+example : chainFind (namespaceOf (St.run [] {} nsOps) ["B"]) "z" = some ("cells", .cells ⟨true, 3⟩) := by decide
+-- `y`: a child space of `A` and a model-level reference: the reference wins
+example : chainFind (namespaceOf (St.run [] {} nsOps) ["A"]) "y" = some ("global_refs", .global) := by decide
+example : ("spaces", [("y", Denot.child)]) ∈ namespaceOf (St.run [] {} nsOps) ["A"] := by decide
+-- `u`: only a model-level reference; `w`: derived in `B`; `_space`; an unused name
+example : chainFind (namespaceOf (St.run [] {} nsOps) ["B"]) "u" = some ("global_refs", .global) := by decide
+example : chainFind (namespaceOf (St.run [] {} nsOps) ["B"]) "w" = some ("own_refs", .ownRef ⟨true, 5⟩) := by decide
+example : chainFind (namespaceOf (St.run [] {} nsOps) ["B"]) "_space" = some ("sys_refs", .sys) := by decide
+example : chainFind (namespaceOf (St.run [] {} nsOps) ["B"]) "v" = none := by decide
+-- a refused name: the request is made, nothing becomes visible
+example : chainFind (namespaceOf (St.run ["for"] {} (nsOps ++ [.setRef ["A"] "for" 1, .setRef ["A"] "_p" 1])) ["A"]) "for" = none :=
+  refused_names_never_visible ["for"] _ ["A"] "for" (by decide) (by decide)
 
 end mechanism
 
